@@ -208,14 +208,18 @@ def validate(trace, props, idx):
     return fails, dt
 
 
-def trace_paths(trace):
-    """Reconstruct, for each line number, the list of actions from the last reset to that line
-    (tree traces use save/restore/drop)."""
+def trace_paths(trace, wanted):
+    """Reconstruct, for each wanted line number, the list of lines from the last reset to that line
+    (tree traces use save/restore/drop). Only wanted lines are kept: traces have millions of lines."""
     paths = {}
     cur = []
     stack = []
+    wanted = set(wanted)
+    last = max(wanted) if wanted else 0
     with open(trace) as f:
         for ln, line in enumerate(f, start=1):
+            if ln > last:
+                break
             if '"ev":"save"' in line:
                 stack.append(list(cur))
                 continue
@@ -230,7 +234,8 @@ def trace_paths(trace):
                 stack = []
                 continue
             cur.append(ln)
-            paths[ln] = list(cur)
+            if ln in wanted:
+                paths[ln] = list(cur)
     return paths
 
 
@@ -343,7 +348,7 @@ def main():
             continue   # other properties' clauses evaluated alongside are reported by their own check
         by_trace.setdefault(f["trace"], []).append(f)
     for tr, fl in by_trace.items():
-        paths = trace_paths(tr)
+        paths = trace_paths(tr, [f.get("line", -1) for f in fl])
         lines = open(tr).read().split("\n")
         for f in fl:
             ln = f.get("line", -1)
@@ -365,7 +370,10 @@ def main():
                 continue
             acts = []
             setup = []
-            for pl in paths.get(ln, []):
+            pls = paths.get(ln, [])
+            if ev.get("ev") in ("integ", "curve") and len(pls) > 2:
+                pls = [pls[0], pls[-1]]     # pure-function events do not depend on earlier ones
+            for pl in pls:
                 try:
                     a = json.loads(lines[pl - 1]).get("a")
                 except Exception:
